@@ -21,7 +21,7 @@ LEVEL_TEXT = ("Real end-to-end runs over generated release/death histories (reco
 LEVEL_NOTE = "f4 encodings compared at 2e-6 relative, f8/i4 exactly. Trusts netCDF4 for reading back and the harness's snapshot hook (hook call count reported)."
 RULE = ("case = (dt, steps, period, numrec, layout, reference, release steps and sizes, IBM kill schedule, particle variables or not, lon/lat or not, encoding, moving water). "
         "Non-trivial: at least one death or a late release so that record sizes change; distinct by the whole parameter tuple.")
-MANDATORY = ["stop_off_grid_steps_multiple_of_period_particle_variables", "packed_output_variable", "forcing_derived_values_checked", "sparse", "dense", "empty_record", "highest_pids_dead_at_file_end", "all_dead_at_end", "late_first_release", "multifile", "explicit_reference",
+MANDATORY = ["record_with_living_inactive_particles_dense", "record_with_living_inactive_particles_sparse", "stop_off_grid_steps_multiple_of_period_particle_variables", "packed_output_variable", "forcing_derived_values_checked", "sparse", "dense", "empty_record", "highest_pids_dead_at_file_end", "all_dead_at_end", "late_first_release", "multifile", "explicit_reference",
              "particle_variables", "lonlat_output", "f4_encoding", "records_compared", "dense_lonlat_with_deaths", "warm_started_run_checked"]
 ASSUMPTIONS = ["durations are multiples of the time step; residues of steps modulo the period are C07's subject but occur here too"]
 TIMEOUT = {"quick": 900, "thorough": 3000}
@@ -64,6 +64,8 @@ def gen_cases(tier: str, seed: int) -> list[dict[str, Any]]:
 def run_case(case: dict[str, Any], wd: Path) -> dict[str, Any]:
     if case["idx"] % 5 == 2 and not case.get("warm"):
         case = dict(case, extra_stop=case["dt"] // 3)  # the stop time is not on the time grid: the run takes floor(duration / dt) steps
+    if case["idx"] % 2 == 0 and case["nsteps"] > 3:
+        case = dict(case, deactivate={1: [0], 2: [1, 2]})  # particles switched off by the IBM stay alive and must stay in the records (both layouts)
     case = dict(case, packed_out=bool(case["idx"] % 4 == 2 and case["enc"] == "f8"), scalar=bool(case["idx"] % 4 == 1))
     out = outscn.run_and_check(case, wd)
     res, snaps, V, cnt = out["res"], out["snaps"], out["V"], out["cnt"]
@@ -86,6 +88,8 @@ def run_case(case: dict[str, Any], wd: Path) -> dict[str, Any]:
                     V.append(C.viol(f"{f.path.name} record at {r.time}: forcing-derived variable temp = {np.asarray(r.vars['temp'])[:5].tolist()}, the forcing field in the cells of the record's "
                                     f"own positions holds {want[:5].tolist()}", params=case))
     sit[case["layout"]] = 1
+    inact = sum(int(s_.get("inactive_alive", 0)) for s_ in snaps)
+    sit["record_with_living_inactive_particles_" + case["layout"]] = int(inact > 0)
     sit["multifile"] = int(case["numrec"] > 0)
     sit["explicit_reference"] = int(case["reference"] is not None)
     sit["particle_variables"] = int(case["pvars"])
